@@ -22,7 +22,7 @@ func init() {
 			"(R1) the component walk compares each '/'-separated component only with string constants and changes the depth counter by exactly " +
 			"{\".\":0, \"\":0, \"..\":-1, other:+1} (the POSIX lexical resolution table), testing depth<0 after every update and rejecting on it; the counter starts at strings.Count(path,\"/\"); " +
 			"(R2) a nil error is returned only when the target is non-empty, at most 247 bytes (constant < 248), has no ':' and (non-Windows) no '\\\\' and no leading '/'; " +
-			"(R3) callers: the scan passes enforcePortable=true exactly under portable mode and stores the normalised target only on the validator's success edge; createSymbolicLink creates the link in portable mode only if the validator accepted and returned the target unchanged. " +
+			"(R3) callers: the scan passes enforcePortable=true exactly under portable mode and stores the normalised target only on the validator's success edge; createSymbolicLink creates the link in portable mode only if the validator accepted and returned the target unchanged; every caller hands createSymbolicLink the path OF the link it creates — the walked path where parent and name come from walkToParentAndComputeLeafName, or Joinable(directory path)+name for an entry of a directory being created — so the depth the validator allows '..' to climb is the link's real depth. " +
 			"Not decided: that the kernel resolves the link as the lexical table says (true for links inside a root without intermediate symlinks, which C17 covers), Windows reparse semantics.",
 		Assumptions: []string{
 			"strings.Split/Count/Index have their documented semantics",
@@ -475,6 +475,40 @@ func c16Callers(c *eng.Ctx, norm *ssa.Function) {
 					c.Check("R3", "create:mode-tested", cr.Pos(), false, "link creation is reached only after testing for portable mode", "atoms: "+atomsOf(p))
 				}
 			}
+		}
+		// R3d: the path the validator measures the depth of is the path of the
+		// link being created. Two wirings exist and they do not mix: (A) parent and
+		// name come from walkToParentAndComputeLeafName(Y) and the path is that Y;
+		// (B) the link is an entry of a directory being created: the parent is that
+		// directory's handle (not a walk result) and the path is
+		// Joinable(directory path) + name, with that same name.
+		nSites := 0
+		for _, caller := range c.P.ModuleFuncs(corePkg) {
+			for _, call := range eng.CallsTo(caller, fn) {
+				nSites++
+				a := call.Common().Args // receiver, parent, name, path, target
+				if len(a) != 5 {
+					c.Problem("R3", "createSymbolicLink signature changed")
+					continue
+				}
+				ok, how := false, ""
+				if ex, isEx := eng.Unwrap(a[1]).(*ssa.Extract); isEx {
+					if w, isCall := ex.Tuple.(*ssa.Call); isCall && strings.HasSuffix(eng.CalleeName(w), ".walkToParentAndComputeLeafName") {
+						nm, isNm := eng.Unwrap(a[2]).(*ssa.Extract)
+						ok = ex.Index == 0 && isNm && nm.Tuple == ex.Tuple && nm.Index == 1 && eng.Render(a[3]) == eng.Render(w.Call.Args[1])
+						how = "parent from walk(" + eng.Render(w.Call.Args[1]) + "); name=" + eng.Render(a[2]) + " path=" + eng.Render(a[3])
+					}
+				} else if b, isB := eng.Unwrap(a[3]).(*ssa.BinOp); isB && b.Op == token.ADD {
+					ok = (b.Y == a[2] || eng.Render(b.Y) == eng.Render(a[2])) && strings.Contains(eng.Render(b.X), "fastpath.Joinable(")
+					how = "entry of a created directory; path=" + eng.Render(a[3])
+				} else {
+					how = "parent=" + eng.Render(a[1]) + " path=" + eng.Render(a[3])
+				}
+				c.Check("R3", "create:path-names-the-link@"+eng.FuncName(caller), call.Pos(), ok, "the root-relative path handed to createSymbolicLink (whose depth bounds the target's '..') is the path of (parent, name): the walked path itself, or Joinable(directory path)+name for an entry of a new directory", how[:min(220, len(how))])
+			}
+		}
+		if nSites < 2 {
+			c.Problem("R3", "expected ≥2 callers of createSymbolicLink, found %d", nSites)
 		}
 	}
 	c.Floor("R3", 8)
